@@ -26,7 +26,8 @@ import textwrap
 import time
 
 VERIF = os.path.dirname(os.path.dirname(os.path.abspath(__file__)))
-PY = os.path.join(VERIF, '.venv', 'bin', 'python')
+PY = next((p_ for p_ in (os.path.join(VERIF, '.venv', 'bin', 'python'), '/verif/.venv/bin/python')
+           if os.path.exists(p_)), '/verif/.venv/bin/python')
 SCRATCH = os.path.join(VERIF, '.scratch')
 REPLAY_DIR = os.environ.get('VERIF_REPLAY_DIR', os.path.join(VERIF, 'replays'))
 
